@@ -1,0 +1,177 @@
+//go:build verif
+
+package builder
+
+// Contracts for package builder (comment-only; checked by /verif/engine).
+
+// ---- documented applicability predicate of every rule (C03, C11) ----
+//@ pred MatchesSkipCopy(ctx *MethodContext, s *xtype.Type, t *xtype.Type) bool = ctx.Conf.SkipCopySameType && s.String == t.String
+//@ pred MatchesBasicTargetPointer(s *xtype.Type, t *xtype.Type) bool = s.Basic && t.Pointer && t.PointerInner.Basic
+//@ pred MatchesPointer(s *xtype.Type, t *xtype.Type) bool = s.Pointer && t.Pointer
+//@ pred MatchesSourcePointer(ctx *MethodContext, s *xtype.Type, t *xtype.Type) bool = ctx.Conf.UseZeroValueOnPointerInconsistency && s.Pointer && !t.Pointer
+//@ pred MatchesTargetPointer(s *xtype.Type, t *xtype.Type) bool = !s.Pointer && t.Pointer
+//@ pred MatchesBasic(s *xtype.Type, t *xtype.Type) bool = s.Basic && t.Basic && s.BasicType.Kind() == t.BasicType.Kind()
+//@ pred MatchesStruct(s *xtype.Type, t *xtype.Type) bool = s.Struct && t.Struct
+//@ pred MatchesList(s *xtype.Type, t *xtype.Type) bool = s.List && t.List && !t.ListFixed
+//@ pred MatchesMap(s *xtype.Type, t *xtype.Type) bool = s.Map && t.Map
+
+//@ pred CtxOK(ctx *MethodContext) bool = ctx != nil && ctx.Conf != nil
+
+//@ func UseUnderlyingTypeMethods.Matches
+//@   props C03 C06
+//@   requires CtxOK(ctx) && source != nil && target != nil
+//@   assigns nothing
+//@   ensures result ==> ctx.Conf.UseUnderlyingTypeMethods
+//@   ensures result ==> (source.Named || target.Named)
+
+//@ func SkipCopy.Matches
+//@   props C03 C04
+//@   pure
+//@   requires CtxOK(ctx) && source != nil && target != nil
+//@   ensures result == MatchesSkipCopy(ctx, source, target)
+
+//@ func Enum.Matches
+//@   props C03 C08
+//@   requires CtxOK(ctx) && source != nil && target != nil
+//@   assigns source.enum, target.enum
+//@   ensures result ==> ctx.Conf.Enum.Enabled
+//@   ensures result ==> source.Named && target.Named
+
+//@ func BasicTargetPointerRule.Matches
+//@   props C03 C11
+//@   pure
+//@   requires source != nil && target != nil
+//@   ensures result == MatchesBasicTargetPointer(source, target)
+
+//@ func Pointer.Matches
+//@   props C03 C11
+//@   pure
+//@   requires source != nil && target != nil
+//@   ensures result == MatchesPointer(source, target)
+
+//@ func SourcePointer.Matches
+//@   props C03 C11
+//@   pure
+//@   requires CtxOK(ctx) && source != nil && target != nil
+//@   ensures result == MatchesSourcePointer(ctx, source, target)
+
+//@ func TargetPointer.Matches
+//@   props C03 C11
+//@   pure
+//@   requires source != nil && target != nil
+//@   ensures result == MatchesTargetPointer(source, target)
+
+//@ func Basic.Matches
+//@   props C03 C11
+//@   pure
+//@   requires source != nil && target != nil
+//@   ensures result == MatchesBasic(source, target)
+
+//@ func Struct.Matches
+//@   props C03
+//@   pure
+//@   requires source != nil && target != nil
+//@   ensures result == MatchesStruct(source, target)
+
+//@ func List.Matches
+//@   props C03
+//@   pure
+//@   requires source != nil && target != nil
+//@   ensures result == MatchesList(source, target)
+
+//@ func Map.Matches
+//@   props C03
+//@   pure
+//@   requires source != nil && target != nil
+//@   ensures result == MatchesMap(source, target)
+
+// ---- upper bounds of the two state-dependent rules, and "no rule can match" ----
+//@ pred MayMatchUnderlying(ctx *MethodContext, s *xtype.Type, t *xtype.Type) bool = ctx.Conf.UseUnderlyingTypeMethods && (s.Named || t.Named)
+//@ pred MayMatchEnum(ctx *MethodContext, s *xtype.Type, t *xtype.Type) bool = ctx.Conf.Enum.Enabled && s.Named && t.Named
+//@ pred H0(ctx *MethodContext, s *xtype.Type, t *xtype.Type) bool = !MayMatchUnderlying(ctx, s, t) && !MatchesSkipCopy(ctx, s, t) && !MayMatchEnum(ctx, s, t)
+//@ pred AnyPureRule(ctx *MethodContext, s *xtype.Type, t *xtype.Type) bool = MatchesSkipCopy(ctx, s, t) || MatchesBasicTargetPointer(s, t)
+//@     || MatchesPointer(s, t) || MatchesSourcePointer(ctx, s, t) || MatchesTargetPointer(s, t) || MatchesBasic(s, t)
+//@     || MatchesStruct(s, t) || MatchesList(s, t) || MatchesMap(s, t)
+//@ pred NoRule(ctx *MethodContext, s *xtype.Type, t *xtype.Type) bool = !MayMatchUnderlying(ctx, s, t) && !MayMatchEnum(ctx, s, t) && !AnyPureRule(ctx, s, t)
+
+//@ pred LemmaPre(ctx *MethodContext, s *xtype.Type, t *xtype.Type) bool = CtxOK(ctx) && typeOK(s) && typeOK(t) && H0(ctx, s, t)
+
+// ---- C03: one lemma per clause of the property statement (proved from the predicates above and the
+// ---- object invariant of xtype.Type; buildNoLookup/assignNoLookup carry NoRule ==> error) ----
+//@ lemma C03_basic_kind_mismatch(ctx *MethodContext, s *xtype.Type, t *xtype.Type)
+//@   props C03
+//@   requires LemmaPre(ctx, s, t) && s.Basic && t.Basic && s.BasicType.Kind() != t.BasicType.Kind()
+//@   ensures NoRule(ctx, s, t)
+
+//@ lemma C03_pointer_to_value_needs_flag(ctx *MethodContext, s *xtype.Type, t *xtype.Type)
+//@   props C03 C11
+//@   requires LemmaPre(ctx, s, t) && s.Pointer && !t.Pointer
+//@   ensures !ctx.Conf.UseZeroValueOnPointerInconsistency ==> NoRule(ctx, s, t)
+//@   ensures ctx.Conf.UseZeroValueOnPointerInconsistency ==> MatchesSourcePointer(ctx, s, t) && !MatchesBasicTargetPointer(s, t) && !MatchesPointer(s, t)
+
+//@ lemma C03_slice_to_array(ctx *MethodContext, s *xtype.Type, t *xtype.Type)
+//@   props C03
+//@   requires LemmaPre(ctx, s, t) && s.List && t.List && t.ListFixed
+//@   ensures NoRule(ctx, s, t)
+
+//@ lemma C03_shape_mismatch(ctx *MethodContext, s *xtype.Type, t *xtype.Type)
+//@   props C03
+//@   requires LemmaPre(ctx, s, t) && !s.Pointer && !t.Pointer
+//@   requires (s.Struct && !t.Struct) || (s.Basic && !t.Basic) || (s.List && !t.List) || (s.Map && !t.Map)
+//@   ensures NoRule(ctx, s, t)
+
+//@ lemma C03_no_rule_for_iface_func_chan(ctx *MethodContext, s *xtype.Type, t *xtype.Type)
+//@   props C03
+//@   requires LemmaPre(ctx, s, t) && !t.Pointer && !(s.Pointer && ctx.Conf.UseZeroValueOnPointerInconsistency)
+//@   requires s.Interface || s.Signature || s.Chan || xtype.ShapeCount(s) == 0 || t.Interface || t.Signature || t.Chan || xtype.ShapeCount(t) == 0
+//@   ensures NoRule(ctx, s, t)
+
+//@ lemma C03_value_to_pointer_always_has_rule(ctx *MethodContext, s *xtype.Type, t *xtype.Type)
+//@   props C03 C11
+//@   requires LemmaPre(ctx, s, t) && !s.Pointer && t.Pointer
+//@   ensures MatchesTargetPointer(s, t) && !NoRule(ctx, s, t)
+
+//@ lemma C03_documented_shapes_have_rule(ctx *MethodContext, s *xtype.Type, t *xtype.Type)
+//@   props C03
+//@   requires LemmaPre(ctx, s, t)
+//@   ensures s.Basic && t.Basic && s.BasicType.Kind() == t.BasicType.Kind() ==> MatchesBasic(s, t) && !NoRule(ctx, s, t)
+//@   ensures s.Pointer && t.Pointer ==> !NoRule(ctx, s, t)
+//@   ensures s.Struct && t.Struct ==> !NoRule(ctx, s, t)
+//@   ensures s.List && t.List && !t.ListFixed ==> !NoRule(ctx, s, t)
+//@   ensures s.Map && t.Map ==> !NoRule(ctx, s, t)
+
+//@ func NewError
+//@   props C03
+//@   requires true
+//@   ensures result != nil && result.Cause == cause && len(result.Path) == 0
+//@   ensures isFresh(result)
+
+//@ func findUnderlyingExtendMapping
+//@   props C06
+//@   requires CtxOK(ctx) && source != nil && target != nil
+//@   assigns nothing
+//@   ensures (underlyingSource || underlyingTarget) ==> (source.Named || target.Named)
+//@   ensures underlyingSource ==> source.Named
+//@   ensures underlyingTarget ==> target.Named
+
+//@ func isEnum
+//@   props C08
+//@   requires CtxOK(ctx) && source != nil && target != nil
+//@   assigns source.enum, target.enum
+//@   ensures result ==> ctx.Conf.Enum.Enabled && source.Named && target.Named
+
+// ---- C10: the zero-value guard decision table (docs/reference/update.md) ----
+//@ pred MethodOK(ctx *MethodContext) bool = ctx != nil && ctx.Conf != nil && ctx.Conf.Definition != nil
+
+//@ func shouldCheckAgainstZero
+//@   props C10
+//@   pure
+//@   requires MethodOK(ctx) && s != nil && t != nil
+//@   ensures result == ((ctx.Conf.UpdateTarget || isUpdate) &&
+//@        ((s.Struct && ctx.Conf.IgnoreStructZeroValueField)
+//@      || (s.Basic && ctx.Conf.IgnoreBasicZeroValueField)
+//@      || (ctx.Conf.IgnoreNillableZeroValueField &&
+//@            (s.Chan || s.Map || s.Func || s.Signature || s.Interface
+//@             || ((call || (ctx.Conf.SkipCopySameType && types.Identical(s.T, t.T))) && ((s.List && !s.ListFixed) || s.Pointer))))))
+//@   ensures !(ctx.Conf.UpdateTarget || isUpdate) ==> !result
+//@   ensures result && s.List ==> !s.ListFixed
